@@ -172,7 +172,7 @@ func TestC18_ExhaustiveAlphabet(t *testing.T) {
 	vk.Rule(rule)
 	maxLen := 5
 	if vk.Thorough() {
-		maxLen = 7
+		maxLen = 8
 	}
 	shard, shards := vk.Shard()
 	var total, nt int64
